@@ -121,3 +121,8 @@ func init() {
 	register(&PropCheck{ID: "C09", Pkgs: []string{"client"}, FnRe: `^VerifC09_`, Level: "model_checking", Rule: rule})
 	register(&PropCheck{ID: "C10", Pkgs: []string{"client"}, FnRe: `^VerifC10_`, Level: "model_checking", Rule: rule})
 }
+
+func init() {
+	register(&PropCheck{ID: "C15", Pkgs: []string{"client"}, FnRe: `^VerifC15_`, Level: "model_checking",
+		Rule: "unit level: the sequential framing methods of the client and server connections (segment write path, several envelopes per segment, multi-segment reassembly at every split point, layout switch, adoption of negotiated compression) executed on connection objects built in the harness / by the real server constructor; frame contents symbolic"})
+}
